@@ -499,6 +499,15 @@ func parseIptables(line string, ver int, sets map[string]int) (string, error) {
 				}
 			case "NOTRACK":
 				a.action = "ANoTrack"
+			case "DSCP":
+				// rewrites the DSCP header field, which is outside the packet record: evaluation continues
+				if err := t.expect("--set-dscp"); err != nil {
+					return "", err
+				}
+				if _, err := strconv.Atoi(t.next()); err != nil {
+					return "", err
+				}
+				a.action = "ANone"
 			case "MARK":
 				if err := t.expect("--set-mark"); err != nil {
 					return "", err
@@ -888,6 +897,19 @@ func parseNft(line string, ver int, sets map[string]int) (string, error) {
 				}
 			case "notrack":
 				a.action = "ANoTrack"
+			case "ip", "ip6":
+				if s != fam {
+					return "", fmt.Errorf("%s statement in an IPv%d rule", s, ver)
+				}
+				for _, x := range []string{"dscp", "set"} {
+					if err := t.expect(x); err != nil {
+						return "", err
+					}
+				}
+				if _, err := strconv.Atoi(t.next()); err != nil {
+					return "", err
+				}
+				a.action = "ANone" // DSCP rewrite: outside the packet record
 			case "jump", "goto":
 				tg := t.next()
 				if !strings.HasPrefix(tg, "cali") || strings.ContainsAny(tg, "\"\\ ") {
